@@ -72,12 +72,14 @@ def generate(rng, n, tier):
             pts, w, x = _measure_set(rng)
             a = [rng.choice([-2, -1, 0, 1, 1, 2, 0.5]) for _ in pts]
             b = rng.choice([0, -1, 1, -2.5, 0.25])
-            yield dict(kind=kind, pts=pts, w=w, x=x, a=a, b=b)
+            yield dict(kind=kind, pts=pts, w=w, x=x, a=a, b=b, tol=rng.choice([0, 0, 0.125, 0.25, 0.5, 1.0]))
         else:
             pts, w, x = _measure_set(rng, nfac=1)
             n0 = max(2, pts[0])
             w0 = [abs(_grid(rng)) + 0.125 for _ in range(n0)]
             x0 = [_grid(rng, neg=True) + 2 * j for j in range(n0)]
+            if n0 >= 3 and rng.random() < 0.35:
+                w0[rng.choice([0, n0 - 1, rng.randrange(n0)])] = 0.0     # a point without support, preferably the lowest / highest position
             yield dict(kind=kind, w=[w0], x=[x0], pts=[n0], target=rng.choice([0.5, 1.0, 2.0, 3.5]),
                        which=rng.choice(["center_mass", "range", "var"]))
 
@@ -170,6 +172,8 @@ def run_impl(case):
         out["expect_var"] = v if isinstance(v, dict) else (None if (v != v or math.isinf(v)) else v)
         out["pof"] = float(c.pof(f))
         out["support"] = [list(map(float, p)) for p in c.support()]
+        out["support_tol"] = [list(map(float, p)) for p in c.support(case.get("tol", 0))]
+        out["support_index_tol"] = [int(i) for i in c.support_index(case.get("tol", 0))]
         out["support_index"] = [int(i) for i in c.support_index()]
         return out
     if k == "setters":
@@ -278,6 +282,11 @@ def oracle(case, obs):
             out.append(_fail("support", "product_measure.support", "value", obs["support"]))
         if obs["support_index"] != [i for i, ww in enumerate(expw) if ww > 0]:
             out.append(_fail("support", "product_measure.support_index", "value", obs["support_index"]))
+        tl = F(case.get("tol", 0))
+        if "support_tol" in obs and obs["support_tol"] != [q for q, ww in zip(expx, expw) if ww > tl]:
+            out.append(_fail("support", "product_measure.support", "value-with-tolerance", dict(tol=float(tl), got=obs["support_tol"])))
+        if "support_index_tol" in obs and obs["support_index_tol"] != [i for i, ww in enumerate(expw) if ww > tl]:
+            out.append(_fail("support", "product_measure.support_index", "value-with-tolerance", dict(tol=float(tl), got=obs["support_index_tol"])))
     elif k == "setters":
         a, t = obs["after"], case["target"]
         key = {"center_mass": "mean", "range": "rng", "var": "var"}[case["which"]]
